@@ -181,7 +181,63 @@ class ClassTable:
         for k in self.mro(c):
             if name in self.fields.get(k, {}):
                 return k, self.fields[k][name]
+        return self.infer_field(c, name)
+
+    def infer_field(self, c, name):
+        """a field that the sidecar does not declare (e.g. introduced by an edit of /repo): its type is guessed from the
+        first assignment `self.<name> = <expr>` found in the class; the guess is recorded and reported in the evidence"""
+        for k in self.mro(c):
+            ci = self.classes.get(k)
+            if ci is None:
+                continue
+            inits = [ci.methods[m] for m in sorted(ci.methods, key=lambda m: m != "__init__")]
+            for fd in inits:
+                for n in ast.walk(fd):
+                    if isinstance(n, ast.Assign) and len(n.targets) == 1:
+                        t = n.targets[0]
+                        if isinstance(t, ast.Attribute) and t.attr == name and isinstance(t.value, ast.Name) and t.value.id == "self":
+                            ty = self._guess(n.value)
+                            if ty is None:
+                                continue
+                            self.fields.setdefault(k, {})[name] = ty
+                            if fd.name != "__init__":
+                                self.late.add((k, name))
+                            self.inferred = getattr(self, "inferred", [])
+                            self.inferred.append("%s.%s : %s (inferred from line %d)" % (k, name, ty, n.lineno))
+                            return k, ty
         return None, None
+
+    def _guess(self, e):
+        if isinstance(e, ast.Constant):
+            if isinstance(e.value, bool):
+                return BOOL
+            if isinstance(e.value, int):
+                return INT
+            if isinstance(e.value, float):
+                return REAL
+            return None
+        if isinstance(e, ast.UnaryOp):
+            return self._guess(e.operand)
+        if isinstance(e, ast.BinOp):
+            if isinstance(e.op, ast.Div):
+                return REAL
+            a, b = self._guess(e.left), self._guess(e.right)
+            if a == INT and b == INT:
+                return INT
+            return REAL
+        if isinstance(e, ast.Call):
+            f = e.func
+            nm = f.attr if isinstance(f, ast.Attribute) else getattr(f, "id", "")
+            if nm in ("floor", "len", "int") and not (isinstance(f, ast.Attribute) and getattr(f.value, "id", "") == "np"):
+                return INT
+            if nm in ("ceil", "floor", "log", "log2", "sqrt", "power", "pow", "exp", "float", "minimum", "maximum", "abs", "fabs"):
+                return REAL
+            return None
+        if isinstance(e, (ast.Compare, ast.BoolOp)):
+            return BOOL
+        if isinstance(e, (ast.Name, ast.Attribute)):
+            return REAL
+        return None
 
     def all_fields(self, c):
         out = {}
